@@ -514,6 +514,19 @@ def explicit(tier, seed):
                         case = base(v, cred)
                         case[who][dim] = [x]
                         yield case
+    # a 1024-bit RSA key cannot produce RSA-PSS with SHA-512: one scheme and
+    # one hash at a time on the side that owns the small key
+    for v in vers:
+        for scheme in (["pss"], ["pkcs1"]):
+            for h in L.HASHES:
+                case = base(v, "rsa1024")
+                case["s"]["rsaSchemes"], case["s"]["rsaSigHashes"] = \
+                    scheme, [h]
+                yield case
+                case = base(v, "rsa", "c_rsa")
+                case["c"]["rsaSchemes"], case["c"]["rsaSigHashes"] = \
+                    scheme, [h]
+                yield case
     # extended master secret / encrypt-then-MAC flags x every version the
     # pair can end up in (SSLv3 knows neither)
     for lo, hi in (((3, 0), (3, 0)), ((3, 0), (3, 1)), ((3, 1), (3, 1)),
